@@ -19,11 +19,14 @@ REQUIRED_THEOREMS = ["field_shadows_method_invoke", "field_shadows_method_get", 
                      "super_static", "static_self", "ctor_returns_instance", "errors_classified"]
 # the state the models abstract is all the state there is: the fields of the run-time structures, regenerated on every run, are the ones
 # the models were written against (Props/StateInventory)
-THEOREM_MODULES.append("Yarel.Props.StateInventory")
+THEOREM_MODULES.append("Yarel.Props.StateInventory.state_of_classes")
 REQUIRED_THEOREMS += ['state_of_classes']
 # who writes the state the mechanism models are about: the set of write sites per group of fields, regenerated on every run (Props/StateWrites)
-THEOREM_MODULES.append("Yarel.Props.StateWrites")
+THEOREM_MODULES.append("Yarel.Props.StateWrites.writers_of_class_tables")
 REQUIRED_THEOREMS += ['writers_of_class_tables']
+# the class-table functions and the property / invoke / super paths as written on this run (Props/GlueText)
+THEOREM_MODULES.append("Yarel.Props.GlueText.C07")
+REQUIRED_THEOREMS += ['bind_method_as_modelled', 'declare_class_impl_as_modelled', 'define_class_impl_as_modelled', 'define_method_as_modelled', 'get_property_impl_as_modelled', 'get_super_impl_as_modelled', 'inherit_impl_as_modelled', 'invoke_as_modelled', 'invoke_from_class_as_modelled', 'invoke_impl_as_modelled', 'set_property_impl_as_modelled', 'static_method_impl_as_modelled', 'super_invoke_impl_as_modelled']
 LEVEL = "proof"
 ASSUMPTIONS = [
     "class-table model Yarel/Model/ClassTable.lean transcribes declare/inherit/method/define and the property/invoke/super paths of vm.rs "
